@@ -326,6 +326,7 @@ def run(rep, facts, tier):
     rule_16_5(rep, fx)
     rule_16_6(rep, fx)
     rule_16_7(rep, fx)
+    rule_16_9(rep, fx)
 
     # ------------------------------------------------------------ R16.8 crossed roles (shared lint, rdv/swaplint.py)
     from rdv import swaplint
@@ -472,3 +473,92 @@ def rule_16_7(rep, fx):
                   'submessage protected under one endpoint\'s key is delivered to the local endpoints matched with the sender\'s other endpoints' % (
                       st['rv']['variant'].lower(), sorted(c for c in calls if 'session' in c or 'mac' in c) or 'none'), b.where(bb, si))
     rep.floor('R16.7', n, 2, 'Success(DecodedSubmessage::..) constructions in decode_submessage')
+
+
+IS = 'messages::submessages::info_source::InfoSource'
+HDR = 'messages::header::Header'
+
+
+def rule_16_9(rep, fx):
+    """Message-level protection leaves the RTPS header in the clear; what binds it to the protected content is the InfoSource copy of it inside."""
+    rep.rule('R16.9', 'clear-text header binding: every Success(Message{header, ..}) of decode_rtps_message lies behind the true edge of a whole-value equality between '
+                      'InfoSource::from(that header) and the InfoSource found inside the protected content; InfoSource derives PartialEq (all fields), From<Header> copies '
+                      'protocol_version, vendor_id and guid_prefix field by field, and encode_rtps_message puts InfoSource::from(header of the message) in front of the protected content')
+    dec = find_decode(fx, 'decode_rtps_message')
+    n = 0
+    for b in [dec] + [k for k in fx.closures_of(dec) if k.kind == 'closure']:
+        succ = [(bb, si, st) for bb, si, st in b.statements() if st['s'] == 'assign' and st['rv']['r'] == 'agg' and st['rv'].get('variant') == 'Success'
+                and 'DecodeOutcome' in str(st['rv'].get('adt') or st['rv'].get('what') or st['rv'])]
+        if not succ:
+            continue
+        rep.analysed(b)
+        og = Origins(b, summaries=True)
+        ogn = Origins(b, transparent=False, summaries=False)
+        P = Pos(b)
+        edges = list(switch_edges(b, fx, og))
+        infeas = infeasible_edges(b, fx, og, edges)
+        # equality calls on InfoSource: (block, header operand origin) when one side is From<Header>::from(..)
+        bind_edges = []
+        bound_headers = []
+        for bb, t in b.calls():
+            f = t['f']
+            if f.get('def') == 'std::cmp::PartialEq::eq' and strip_generics(f.get('self_ty') or '') == IS and [strip_generics(a) for a in f.get('args', [])] == [IS, IS]:
+                sides = [ogn.of_operand(a, bb, 'term') for a in t['args']]
+
+                def conv_arg(x):
+                    """header operand if x is (a reference to) the result of <InfoSource as From<Header>>::from(h)"""
+                    x = _strip(x)
+                    if x[0] == 'call' and len(x) > 3:
+                        ff = b.blocks[x[3]]['term']['f']
+                        if ff.get('def') == 'std::convert::From::from' and [strip_generics(a) for a in ff.get('args', [])] == [IS, HDR]:
+                            return _strip(x[2][0])
+                    return None
+                hs = [conv_arg(x) for x in sides]
+                if sum(1 for h in hs if h is not None) != 1:
+                    continue
+                hdr = [h for h in hs if h is not None][0]
+                # the switch on the bool result
+                for s_, t_, cond, lab in edges:
+                    if lab is True and cond[0] == 'call' and len(cond) > 3 and cond[3] == bb:
+                        bind_edges.append((s_, t_))
+                        bound_headers.append(hdr)
+        for bb, si, st in succ:
+            n += 1
+            msg = og.of_operand(st['rv']['ops'][0], bb, si)
+            hterm = None
+            if msg[0] == 'agg' and str(msg[1]).endswith('Message') and len(msg) > 3 and 'header' in msg[3]:
+                hterm = msg[2][list(msg[3]).index('header')]
+            dom = bool(bind_edges) and P.every_path_passes(None, (bb, si), via_edges=bind_edges + list(infeas), from_entry=True)
+            same = hterm is not None and any(_strip(hterm) == h for h in bound_headers)
+            rep.check(dom and same, 'R16.9', '%s/Success#%d' % (b.key.split('crypto_transform::')[-1], n), 'behind InfoSource::from(header) == protected InfoSource, same header',
+                      'decode_rtps_message returns Success(Message{header, ..}) without the whole header-derived InfoSource having been found equal to the protected one '
+                      '(dominated=%s, same header=%s): version / vendor / prefix bytes of the clear-text header can be altered in transit undetected' % (dom, same), b.where(bb, si))
+    rep.floor('R16.9', n, 1, 'Success(Message{..}) constructions in decode_rtps_message')
+    # the equality is the derived one, the conversion copies the three fields
+    derived = [im for im in fx.impls if strip_generics(im.get('self_ty') or '') == IS and im.get('trait_def') == 'std::cmp::PartialEq']
+    rep.check(len(derived) == 1 and bool(derived[0].get('derived')), 'R16.9', 'InfoSource/PartialEq-derived', 'derived PartialEq compares every field',
+              'InfoSource no longer derives PartialEq: the header binding compares whatever the hand-written eq compares', '')
+    conv = fx.find('<%s as std::convert::From<%s>>::from' % (IS, HDR))
+    rep.analysed(conv)
+    ogc = Origins(conv)
+    okc = False
+    for bb, si, st in conv.statements():
+        if st['s'] == 'assign' and st['lhs']['l'] == 0 and st['rv']['r'] == 'agg':
+            flds = st['rv'].get('fields') or []
+            vals = {f: ogc.of_operand(o, bb, si) for f, o in zip(flds, st['rv']['ops'])}
+            okc = all(f in vals and vals[f] == ('field', f, ('param', 1)) for f in ('protocol_version', 'vendor_id', 'guid_prefix'))
+    rep.check(okc, 'R16.9', 'InfoSource::from(Header)/fields', 'protocol_version, vendor_id, guid_prefix copied from the same-named header fields',
+              'From<Header> for InfoSource does not copy protocol_version, vendor_id and guid_prefix from the header: part of the clear-text header is not bound to the protected content', conv.where())
+    enc = find_decode(fx, 'encode_rtps_message')
+    rep.analysed(enc)
+    oge = Origins(enc, transparent=False, summaries=False)
+    convs = [(bb, t) for bb, t in enc.calls() if t['f'].get('def') == 'std::convert::From::from' and [strip_generics(a) for a in t['f'].get('args', [])] == [IS, HDR]]
+    oke = len(convs) == 1 and term_has(oge.of_operand(convs[0][1]['args'][0], convs[0][0], 'term'), lambda z: z[0] == 'field' and z[1] == 'header')
+    rep.check(oke, 'R16.9', 'encode_rtps_message/info-source-of-own-header', 'InfoSource::from(header of the message being encoded)',
+              'encode_rtps_message does not derive the protected InfoSource from the header of the message it encodes', enc.where())
+
+
+def _strip(t):
+    while isinstance(t, tuple) and t and t[0] in ('deref', 'ref', 'copy', 'move') and len(t) > 1 and isinstance(t[1], tuple):
+        t = t[1]
+    return t
